@@ -929,6 +929,17 @@ func implScan(c *scanCase) (o scanObs) {
 	}
 	o.after = printDests(c.dests)
 	o.leak = releaseCheck(sqldb, f)
+	if o.leak == "" {
+		// Run on the same statement (it has outputs and the driver returns a row): whatever Run reports, the
+		// result set is closed and the connection back in the pool when it returns
+		func() {
+			defer func() { recover() }()
+			db.Query(context.Background(), stmt, c.inargs...).Run()
+		}()
+		if leak := releaseCheck(sqldb, f); leak != "" {
+			o.leak = "after Query.Run: " + leak
+		}
+	}
 	if err != nil && strings.HasPrefix(err.Error(), "PANIC ") {
 		return scanObs{line: "PANIC " + fmt.Sprintf("%q", err.Error()), panicked: err.Error()}
 	}
